@@ -22,6 +22,9 @@ type Op struct {
 	Flags int    `json:"flags,omitempty"` // define: 1 writable 2 enumerable 4 configurable (values of the present boolean fields)
 	Iss   string `json:"iss"`             // issuer
 	Idx   int    `json:"idx,omitempty"`   // paramset: parameter number
+	Step  int    `json:"step,omitempty"`  // enum: the body runs when the (Step+1)-th key is visited
+	Brk   bool   `json:"brk,omitempty"`   // enum (for-in): break after the body (abandoned enumeration)
+	Body  *Op    `json:"body,omitempty"`  // enum: mutator issued while the enumeration is in progress
 }
 
 func (o Op) String() string {
@@ -55,6 +58,15 @@ func (o Op) String() string {
 	}
 	if o.Recv != "" {
 		b.WriteString(",recv=" + o.Recv)
+	}
+	if o.Op == "enum" {
+		fmt.Fprintf(&b, ",@%d", o.Step)
+		if o.Brk {
+			b.WriteString(",break")
+		}
+		if o.Body != nil {
+			b.WriteString(",{" + o.Body.String() + "}")
+		}
 	}
 	b.WriteString(")/" + o.Iss)
 	return b.String()
@@ -135,7 +147,7 @@ var objectValueNames = []string{"V1", "V2", "T", "P1", "P2", "D", "U"}
 var worldObjects = []string{"T", "P1", "P2", "D", "U"}
 
 // function pool
-var getterNames = []string{"G1", "G2", "GT"}
+var getterNames = []string{"G1", "G2", "GT", "GM"}
 var setterNames = []string{"St1", "St2", "StT"}
 
 // kinds
@@ -175,6 +187,9 @@ var issuers = map[string][]string{
 	"forin": {"js", "jss"}, "syms": {"go"}, "entries": {"object"}, "preventExtensions": {"object", "reflect"}, "seal": {"object"}, "freeze": {"object"},
 	"isSealed": {"object"}, "isFrozen": {"object"}, "isExtensible": {"object", "reflect"}, "getProto": {"object", "reflect", "go"},
 	"setProto": {"object", "reflect", "go"}, "detach": {"go"}, "paramset": {"js"},
+	// enumerate-with-mutation: for-in whose body issues a mutator (sloppy / strict function), Object.assign / spread / entries
+	// whose source runs the mutator from the getter GM; an enumeration kept open across ops (generator around for-in)
+	"enum": {"forin", "forin-strict", "assign", "spread", "entries"}, "enumopen": {"js"}, "enumnext": {"js"},
 }
 
 // issuerOK reports whether the issuer can express the op.
@@ -196,6 +211,16 @@ func issuerOK(o *Op, iss string) bool {
 		if o.Recv != "" {
 			return iss == "reflect"
 		}
+	case "enum":
+		// same abstract enumeration: for-in sloppy/strict; Object.assign / spread; entries alone
+		switch o.Iss {
+		case "forin", "forin-strict":
+			return iss == "forin" || iss == "forin-strict"
+		case "assign", "spread":
+			return iss == "assign" || iss == "spread"
+		case "entries":
+			return iss == "entries"
+		}
 	}
 	return true
 }
@@ -209,5 +234,5 @@ func isStatusOp(op string) bool {
 }
 
 func isMutator(op string) bool {
-	return isStatusOp(op) || op == "detach" || op == "paramset"
+	return isStatusOp(op) || op == "detach" || op == "paramset" || op == "enum"
 }
